@@ -355,6 +355,8 @@ class Interp(object):
             i = e.slice.value
             if -len(v) <= i < len(v):
                 return v[i]
+        if isinstance(e.value, ast.Call) and src(e.value.func).endswith(".isocalendar") and isinstance(e.slice, ast.Constant):
+            return {1: Val(1, 53), 2: Val(1, 7)}.get(e.slice.value, TOP)
         # calendar.monthrange(y, m)[1]
         if isinstance(e.value, ast.Call) and src(e.value.func).endswith("monthrange") \
                 and isinstance(e.slice, ast.Constant) and e.slice.value == 1:
